@@ -297,6 +297,9 @@ def is_known(prop, key):
 
 
 # ----------------------------------------------------------------------------------------- evidence
+# evidence/ and replays/ live in /verif; trial runs against a scratch tree (tools/try_*.sh) redirect them with VERIF_OUT
+OUT = os.environ.get("VERIF_OUT") or ROOT
+
 
 class Evidence:
     def __init__(self, prop, tier, seed, level):
@@ -328,8 +331,8 @@ class Evidence:
 
     def write(self):
         self.d["wall_s"] = round(time.time() - self.t0, 2)
-        os.makedirs(os.path.join(ROOT, "evidence"), exist_ok=True)
-        p = os.path.join(ROOT, "evidence", self.d["property_id"] + ".json")
+        os.makedirs(os.path.join(OUT, "evidence"), exist_ok=True)
+        p = os.path.join(OUT, "evidence", self.d["property_id"] + ".json")
         tmp = p + ".tmp"
         json.dump(self.d, open(tmp, "w"), indent=1, ensure_ascii=False)
         os.replace(tmp, p)
@@ -337,7 +340,7 @@ class Evidence:
 
 
 def replay_dir(prop):
-    d = os.path.join(ROOT, "replays", prop)
+    d = os.path.join(OUT, "replays", prop)
     os.makedirs(d, exist_ok=True)
     return d
 
